@@ -353,9 +353,10 @@ def plan(tier):
     nd = sum(1 for _ in gg.gen_dup_family())
     no = sum(1 for _ in gg.gen_order_family())
     nc = sum(1 for _ in gg.gen_nameclash_family())
+    nsp = len(gg.special_models())
     if tier == "quick":
-        return [("nameclash", nc, 1), ("special", 4, 2), ("n1", n1, 2), ("n1_opset_pairs", 2 * n1, 1), ("dupfam", nd, 1), ("orderfam", no, 1), ("n2", n2, 1)]
-    return [("nameclash", nc, 2), ("special", 4, 3), ("n1", n1, 3), ("n1_opset_pairs", 2 * n1, 2), ("dupfam", nd, 2), ("orderfam", no, 2), ("n2", n2, 2)]
+        return [("nameclash", nc, 1), ("special", nsp, 2), ("n1", n1, 2), ("n1_opset_pairs", 2 * n1, 1), ("dupfam", nd, 1), ("orderfam", no, 1), ("n2", n2, 1)]
+    return [("nameclash", nc, 2), ("special", nsp, 3), ("n1", n1, 3), ("n1_opset_pairs", 2 * n1, 2), ("dupfam", nd, 2), ("orderfam", no, 2), ("n2", n2, 2)]
 
 
 def run_exploration(tier):
@@ -621,7 +622,7 @@ def _composition_work(task):
 def check_compositions(tier):
     n1 = sum(1 for _ in gg.gen_models(1))
     stride = 7 if tier == "quick" else 1
-    tasks = [("n1", lo, min(n1, lo + 2), stride) for lo in range(0, n1, 2)] + [("special", 0, 8, stride)]
+    tasks = [("n1", lo, min(n1, lo + 2), stride) for lo in range(0, n1, 2)] + [("special", 0, len(gg.special_models()), stride)]
     res = common.pmap(_composition_work, common.shuffled(tasks, "compositions"), chunksize=1)
     found = {}
     for _, f in res:
